@@ -841,15 +841,19 @@ def pretty_call_alt(ctx, fn, args=(), kwargs=(), trailing_comment=None):
     if ctx.depth_left <= 0:
         return concat([fndoc, LPAREN, ELLIPSIS, RPAREN])
 
-    if not kwargs and len(args) == 1 and not trailing_comment:
+    if not kwargs and len(args) == 1:
         sole_arg = args[0]
         unwrapped_sole_arg, _comment, _trailing_comment = unwrap_comments(args[0])
         if type(unwrapped_sole_arg) in (list, dict, tuple):
+            # The sole container argument does not consume a nesting
+            # level; a trailing comment after it only keeps the call
+            # from hugging it.
             return build_fncall(
                 ctx,
                 fndoc,
                 argdocs=[pretty_python_value(sole_arg, ctx)],
-                hug_sole_arg=True,
+                hug_sole_arg=not trailing_comment,
+                trailing_comment=trailing_comment,
             )
 
     nested_ctx = (
